@@ -345,6 +345,14 @@ func (fx *FX) execUnOp(st *State, x *ssa.UnOp) {
 func (fx *FX) execBinOp(st *State, x *ssa.BinOp) {
 	a, b := fx.val(x.X), fx.val(x.Y)
 	fx.labelJoin(x, x.X, x.Y)
+	if x.Op == token.EQL || x.Op == token.NEQ {
+		// equality of struct or array values is a field-by-field early-exit comparison (runtime memequal / strequal):
+		// when a field is text it is a comparison site like a string == (seed C09-h)
+		switch x.X.Type().Underlying().(type) {
+		case *types.Struct, *types.Array:
+			fx.compareCheck(st, x, x.X, x.Y)
+		}
+	}
 	switch av := a.(type) {
 	case VBool:
 		bv := b.(VBool)
